@@ -290,7 +290,11 @@ def check_mine(case):
     import bits.rpc
 
     height = case["height"]
-    mem = [gen_tx.to_ref(t) for t in case["mempool"]]
+    mem = []
+    for t in case["mempool"]:  # a mempool never holds two transactions with the same txid
+        rt = gen_tx.to_ref(t)
+        if txref.txid(rt) not in {txref.txid(x) for x in mem}:
+            mem.append(rt)
     raws = [txref.serialize(t) for t in mem]
     prev_hash = bx(case["prev"])
     submitted = {}
